@@ -1530,6 +1530,15 @@ method or constructor of some type."""
                                        str(origin_node.create_type()),
                                        str(func.retval.type)))
                     return False
+            if parent != target:
+                # Walked up to GObject.Object without meeting the return type
+                message.warn_node(func,
+                                  "Return value is not superclass for constructor; "
+                                  "symbol='%s' constructed='%s' return='%s'" %
+                                  (func.symbol,
+                                   str(origin_node.create_type()),
+                                   str(func.retval.type)))
+                return False
         else:
             if origin_node != target:
                 message.warn_node(func,
